@@ -95,7 +95,7 @@ def _diagnose(ctx, prob, tt, seq_valid):
     return "other"
 
 
-def h_agree(ctx, sk, min_len, max_len, res, qmax=6):
+def h_agree(ctx, sk, min_len, max_len, res, qmax=6, first=None):
     from unified_planning.engines.plan_validator import SequentialPlanValidator, TimeTriggeredPlanValidator
     from unified_planning.engines.results import ValidationResultStatus
     from unified_planning.exceptions import UPProblemDefinitionError
@@ -107,7 +107,7 @@ def h_agree(ctx, sk, min_len, max_len, res, qmax=6):
     prob, em, env = g.problem, g.em, g.env
     instances = _instances(g, sk)
     n = min_len + ctx.choice("len", max_len - min_len + 1)
-    steps = [instances[ctx.choice(f"s{i}", len(instances))] for i in range(n)]
+    steps = [instances[first if (i == 0 and first is not None) else ctx.choice(f"s{i}", len(instances))] for i in range(n)]
     ais = [ActionInstance(a, (em.ObjectExp(o),)) for a, o in steps]
     ts = []
     for i in range(n):
@@ -161,12 +161,13 @@ SKS = [
     (dict(pre=[12], effs=[17, 12], goal=[0]), [["x0"]]),                                                       # 6 effect value reads an undefined fluent
     (dict(pre=[4], effs=[2], second_action=[3, 12], pre2=[5], n_bounds="both", goal=[0]), [["x0", "d"], ["c", "lb"]]),  # 7 two actions: order matters
     (dict(pre=[3], effs=[7, 12], goal=[10], w_init="any"), [[]]),                                              # 8 object fluent
-    (dict(pre=[1], effs=[2, 9, 3], effcond=6, n_bounds="upper", goal=[4]), [["x0", "d"]]),                    # 9 inc/dec accumulate, half-bounded type
+    (dict(pre=[1], effs=[2, 9, 3], effcond=0, n_bounds="upper", goal=[4]), [["x0", "d"]]),                    # 9 inc/dec accumulate, half-bounded type
     (dict(pre=[11], effs=[14, 15], effcond=10, goal=[11], w_init="any"), [[]]),                                # 10 nested fluent, conditional object assignment
     (dict(pre=[], effs=[5, 16, 0], effcond=4, n_bounds="both", goal=[1]), [["x0", "c2"], ["d2", "lb"]]),       # 11 conditional assign + decrease
     (dict(pre=[], effs=[7, 14], effcond=0, goal=[10], w_init="any"), [[]]),                                    # 12 two object assignments, possibly the same value
 ]
 
+_WIDE = {2: 1, 6: 1, 7: 1, 8: 1, 12: 2}  # skeleton index -> number of first-step splits of the length-2 shard
 _RES = [[1, 2, 0], [0, 0, 0], [3, 1, 1], [2, 2, 3]]
 
 
@@ -177,16 +178,31 @@ def shards(tier, seed):
         for j, (i, s) in enumerate(plan):
             sk, syms = SKS[i]
             skd = dict(sk, sym=syms[s])
-            for lo, hi in ((0, 2),):
-                out.append(dict(name=f"sk{i:02d}-{'-'.join(syms[s]) or 'nosym'}-len{lo}to{hi}", fn="h_agree",
-                                kwargs=dict(sk=skd, min_len=lo, max_len=hi, res=_RES[j % len(_RES)]), budget=110, per_path=40))
+            res = _RES[j % len(_RES)]
+            name = f"sk{i:02d}-{'-'.join(syms[s]) or 'nosym'}"
+            if i not in _WIDE:
+                out.append(dict(name=f"{name}-len0to2", fn="h_agree", kwargs=dict(sk=skd, min_len=0, max_len=2, res=res), budget=110, per_path=40))
+                continue
+            # wide skeletons (many Boolean initial values / instances) are cut by plan length, the widest also by the first step
+            out.append(dict(name=f"{name}-len0to1", fn="h_agree", kwargs=dict(sk=skd, min_len=0, max_len=1, res=res), budget=110, per_path=40))
+            if _WIDE[i] == 1:
+                out.append(dict(name=f"{name}-len2", fn="h_agree", kwargs=dict(sk=skd, min_len=2, max_len=2, res=res), budget=110, per_path=40))
+            else:
+                for f in range(_WIDE[i]):
+                    out.append(dict(name=f"{name}-len2-first{f}", fn="h_agree", kwargs=dict(sk=skd, min_len=2, max_len=2, res=res, first=f),
+                                    budget=110, per_path=40))
     else:
         for i, (sk, syms) in enumerate(SKS):
             for sym in syms:
                 skd = dict(sk, sym=sym)
-                for lo, hi in ((0, 2), (3, 3)):
-                    out.append(dict(name=f"sk{i:02d}-{'-'.join(sym) or 'nosym'}-len{lo}to{hi}-anyres", fn="h_agree",
-                                    kwargs=dict(sk=skd, min_len=lo, max_len=hi, res=None), budget=1500, per_path=60))
+                tag = f"sk{i:02d}-{'-'.join(sym) or 'nosym'}"
+                # every residue class of every start time (choice variables) for plans of length <= 2 ...
+                out.append(dict(name=f"{tag}-len0to2-anyres", fn="h_agree", kwargs=dict(sk=skd, min_len=0, max_len=2, res=None),
+                                budget=1500, per_path=60))
+                # ... and two fixed residue patterns for length 3 (6 order types each)
+                for k, res in enumerate((_RES[0], _RES[1])):
+                    out.append(dict(name=f"{tag}-len3-res{k}", fn="h_agree", kwargs=dict(sk=skd, min_len=3, max_len=3, res=res),
+                                    budget=1500, per_path=60))
     return out
 
 
